@@ -325,6 +325,7 @@ def c13_jobs(tier):
     jobs = []
     for sc in ('2E4', '1E6', '1E8'):
         jobs.append(J('rddetector', 'PY:rddetector_columns_' + sc, [], stubs=['tools']))
+    jobs.append(J('rddetector', 'PY:rddetector_count', [], stubs=['tools']))
     return jobs
 
 
@@ -344,7 +345,7 @@ PROPS = {
     'C13': {
         'jobs': c13_jobs,
         'technique': 'solver-style symbolic execution of the real worker code (go/ssa) with every library test an uninterpreted function of (file content, parameters): the term in each report column is compared with the term the header label names (data-flow equality of terms; complete over file contents, no search needed)',
-        'bounds': {'quick': 'worker_2E4 / worker_1E6 / worker_1E8 on one file with symbolic content: every one of the 44/64/66 value columns against its header label (test, parameter, P/Q/P1/Q1/P2/Q2), row name, column count; complete for all three scales',
+        'bounds': {'quick': 'worker_2E4 / worker_1E6 / worker_1E8 on one file with symbolic content: every one of the 44/64/66 value columns against its header label (test, parameter, P/Q/P1/Q1/P2/Q2), row name, column count; complete for all three scales; toBeTestFileNum over a walk of seven entries with SYMBOLIC kinds (directory/regular) and sizes: sample count and scale inference',
                    'thorough': 'same'},
         'outside': 'the interleavings of walker / workers / writer goroutines and the file-system traversal are NOT modelled (one job, sequentialised); the numeric values (C01-C05); the 6-decimal formatting is read off resultWriter (format constant) only',
         'assumptions': ['ioutil.ReadFile returns the file bytes', 'library tests are pure functions of (data, parameters) (C18)', 'label grammar: "[k] <P|Q|P1|Q1|P2|Q2> <test name> <param>=<value>" as used by all three headers'],
